@@ -27,12 +27,28 @@ theorem u32_parts (f : Fam) (hfa : f.afi < 65536) : famOfU32 f.u32 = f := by
   rw [this]
   cases f; simp
 
+/-- a canonical notification stays canonical when its data is cut -/
+theorem notifCanon_take (c s : Nat) (d : Bytes) (k : Nat) (h : notifCanon c s d = (c, s, d)) :
+    notifCanon c s (d.take k) = (c, s, d.take k) := by
+  unfold notifCanon at h ⊢
+  simp only at h ⊢
+  split
+  · rfl
+  · split
+    · simp_all
+    · split
+      · simp_all
+      · split
+        · simp_all
+        · rfl
+
 theorem master_small (p : Profile) (i : Input) (h : domSmall i = true) :
     check i (run p i) = .ok ∧ ∃ n s dec, run p i = .obs n s dec .t := by
   unfold domSmall at h
   have hge := maxFrame_ge i
   have hle := maxFrame_le i
   have hmaxF := maxLen_peer i
+  have hmaxE := maxLen_enc i
   cases hm : i.msg with
   | «open» a b c d => simp [hm] at h
   | unreach f es => simp [hm] at h
@@ -41,9 +57,10 @@ theorem master_small (p : Profile) (i : Input) (h : domSmall i = true) :
       simp only [hm, Bool.and_eq_true] at h
       obtain ⟨hb, henc⟩ := h
       have hrun := run_single p i 4 [] .keepalive .keepalive (by rw [hm]; rfl)
-        (by rw [hm]; simp [doEncode]) (by rw [hmaxF]; simp; omega) (by simp)
+        (by rw [hm]; exact doEncode_of_body (by simp [doEncodeBody]) (by rw [hmaxE]; simp; omega))
+        (by rw [hmaxF]; simp; omega) (by simp)
         (by intro od; simp [parseMessage, frame_type])
-        rfl rfl rfl rfl (by simp [doEncode])
+        rfl rfl rfl rfl (doEncode_of_body (by simp [doEncodeBody]) (by rw [hmaxE]; simp; omega))
       refine ⟨?_, _, _, _, hrun⟩
       rw [hrun]
       apply check_single i 4 [] .keepalive hb henc (by rw [hm]; rfl) (by simp; omega) (by simp)
@@ -58,11 +75,12 @@ theorem master_small (p : Profile) (i : Input) (h : domSmall i = true) :
       obtain ⟨_, hfa, hfs⟩ := hb'
       have hbl : f.u32.length = 4 := by simp [Fam.u32]
       have hrun := run_single p i 5 f.u32 (.rr f) (.rr f) (by rw [hm]; rfl)
-        (by rw [hm]; simp [doEncode]) (by rw [hmaxF, hbl]; omega) (by rw [hbl]; omega)
+        (by rw [hm]; exact doEncode_of_body (by simp [doEncodeBody]) (by rw [hmaxE, frame_length, hbl]; omega))
+        (by rw [hmaxF, hbl]; omega) (by rw [hbl]; omega)
         (by intro od
             simp only [parseMessage, frame_length, hbl, frame_type, beNat_single, frame_body, u32_parts f hfa]
             simp)
-        rfl rfl rfl rfl (by simp [doEncode])
+        rfl rfl rfl rfl (doEncode_of_body (by simp [doEncodeBody]) (by rw [hmaxE, frame_length, hbl]; omega))
       refine ⟨?_, _, _, _, hrun⟩
       rw [hrun]
       apply check_single i 5 f.u32 (.rr f) hb henc (by rw [hm]; rfl) (by rw [hbl]; omega) (by rw [hbl]; omega)
@@ -75,35 +93,41 @@ theorem master_small (p : Profile) (i : Input) (h : domSmall i = true) :
       have hb' := hb
       simp only [buildable, hm, Bool.and_eq_true, decide_eq_true_eq, beq_iff_eq] at hb'
       obtain ⟨_, ⟨⟨⟨hc, hs⟩, _⟩, hcan⟩⟩ := hb'
-      have henc' := henc
-      simp only [encodable, hm, decide_eq_true_eq] at henc'
-      have hbl : ([c, s] ++ d).length = 2 + d.length := by simp; omega
-      have hdoe : doEncode p (negotiate i.loc i.rem) (.notif c s d) [] = .ok (frame 3 ([c, s] ++ d), 0) := by
-        simp [doEncode, hcan]
-      have hrun := run_single p i 3 ([c, s] ++ d) (.notif c s d) (.notif c s d) (by rw [hm]; rfl)
+      -- the data is cut to what fits the negotiated maximum
+      have hd' : ∃ d', d' = d.take (maxFrame i - 21) := ⟨_, rfl⟩
+      obtain ⟨d', hd'⟩ := hd'
+      have hdl : d'.length ≤ maxFrame i - 21 := by rw [hd']; simp [List.length_take]; omega
+      have hcan' : notifCanon c s d' = (c, s, d') := by rw [hd']; exact notifCanon_take c s d _ hcan
+      have htt : d'.take (maxFrame i - 21) = d' := by rw [hd', List.take_take]; simp
+      have hbl : ([c, s] ++ d').length = 2 + d'.length := by simp; omega
+      have hdoe : doEncode p (negotiate i.loc i.rem) (.notif c s d) [] = .ok (frame 3 ([c, s] ++ d'), 0) :=
+        doEncode_of_body (by simp [doEncodeBody, hcan, hmaxE, hd']) (by rw [hmaxE, frame_length, hbl]; omega)
+      have hdoe' : doEncode p (negotiate i.loc i.rem) (.notif c s d') [] = .ok (frame 3 ([c, s] ++ d'), 0) :=
+        doEncode_of_body (by simp [doEncodeBody, hcan', hmaxE, htt]) (by rw [hmaxE, frame_length, hbl]; omega)
+      have hrun := run_single p i 3 ([c, s] ++ d') (.notif c s d') (.notif c s d') (by rw [hm]; rfl)
         (by rw [hm]; exact hdoe) (by rw [hmaxF, hbl]; omega) (by rw [hbl]; omega)
         (by intro od
-            have hl : ¬ (frame 3 ([c, s] ++ d)).length < 19 := by simp
-            have hl2 : ¬ (frame 3 ([c, s] ++ d)).length < 21 := by simp; omega
+            have hl : ¬ (frame 3 ([c, s] ++ d')).length < 19 := by simp
+            have hl2 : ¬ (frame 3 ([c, s] ++ d')).length < 21 := by simp; omega
             simp only [parseMessage, hl, if_false, frame_type, beNat_single, hl2]
-            have e1 : ((frame 3 ([c, s] ++ d)).drop 19).take 1 = [c] := by rw [frame_body]; rfl
-            have e2 : ((frame 3 ([c, s] ++ d)).drop 20).take 1 = [s] := by
-              have : (frame 3 ([c, s] ++ d)).drop 20 = ((frame 3 ([c, s] ++ d)).drop 19).drop 1 := by
+            have e1 : ((frame 3 ([c, s] ++ d')).drop 19).take 1 = [c] := by rw [frame_body]; rfl
+            have e2 : ((frame 3 ([c, s] ++ d')).drop 20).take 1 = [s] := by
+              have : (frame 3 ([c, s] ++ d')).drop 20 = ((frame 3 ([c, s] ++ d')).drop 19).drop 1 := by
                 rw [List.drop_drop]
               rw [this, frame_body]; rfl
-            have e3 : (frame 3 ([c, s] ++ d)).drop 21 = d := by
-              have : (frame 3 ([c, s] ++ d)).drop 21 = ((frame 3 ([c, s] ++ d)).drop 19).drop 2 := by
+            have e3 : (frame 3 ([c, s] ++ d')).drop 21 = d' := by
+              have : (frame 3 ([c, s] ++ d')).drop 21 = ((frame 3 ([c, s] ++ d')).drop 19).drop 2 := by
                 rw [List.drop_drop]
               rw [this, frame_body]; rfl
-            rw [e1, e2, e3, beNat_single, beNat_single, hcan]
+            rw [e1, e2, e3, beNat_single, beNat_single, hcan']
             simp)
-        rfl rfl rfl rfl hdoe
+        rfl rfl rfl rfl hdoe'
       refine ⟨?_, _, _, _, hrun⟩
       rw [hrun]
-      apply check_single i 3 ([c, s] ++ d) (.notif c s d) hb henc (by rw [hm]; rfl) (by rw [hbl]; omega) (by rw [hbl]; omega)
+      apply check_single i 3 ([c, s] ++ d') (.notif c s d') hb henc (by rw [hm]; rfl) (by rw [hbl]; omega) (by rw [hbl]; omega)
       · simp [frameLengths, frame_type, frame_body]
       · intro frames; simp [opaqueClause, hm]
-      · intro frames; simp [contentClause, hm]
+      · intro frames; simp [contentClause, hm, hd']
   | eor f =>
       simp only [hm, Bool.and_eq_true, Bool.or_eq_true] at h
       obtain ⟨⟨hb, henc⟩, hfam⟩ := h
@@ -113,9 +137,10 @@ theorem master_small (p : Profile) (i : Input) (h : domSmall i = true) :
       by_cases hf4 : f = Fam.ipv4
       · subst hf4
         have hrun := run_single p i 2 [0, 0, 0, 0] (.eor Fam.ipv4) (.eor Fam.ipv4) (by rw [hm]; rfl)
-          (by rw [hm]; exact doEncode_eor_ipv4 p _ []) (by rw [hmaxF]; simp; omega) (by simp)
+          (by rw [hm]; exact doEncode_of_body (doEncode_eor_ipv4 p _ []) (by rw [hmaxE]; simp; omega))
+          (by rw [hmaxF]; simp; omega) (by simp)
           (by intro od; rw [parseMessage_update]; exact parseUpdate_eor_ipv4 od _)
-          rfl rfl rfl rfl (doEncode_eor_ipv4 p _ [])
+          rfl rfl rfl rfl (doEncode_of_body (doEncode_eor_ipv4 p _ []) (by rw [hmaxE]; simp; omega))
         refine ⟨?_, _, _, _, hrun⟩
         rw [hrun]
         apply check_single i 2 [0, 0, 0, 0] (.eor Fam.ipv4) hb henc (by rw [hm]; rfl) (by simp; omega) (by simp)
@@ -132,9 +157,10 @@ theorem master_small (p : Profile) (i : Input) (h : domSmall i = true) :
           simp [hel]
         have hrun := run_single p i 2 ([0, 0] ++ be16 (encRaw (mpUnreachRaw f [])).length ++ encRaw (mpUnreachRaw f []))
           (.eor f) (.eor f) (by rw [hm]; rfl)
-          (by rw [hm]; exact doEncode_eor_mp p _ f [] hf4) (by rw [hmaxF, hbl]; omega) (by rw [hbl]; omega)
+          (by rw [hm]; exact doEncode_of_body (doEncode_eor_mp p _ f [] hf4) (by rw [hmaxE, frame_length, hbl]; omega))
+          (by rw [hmaxF, hbl]; omega) (by rw [hbl]; omega)
           (by intro od; rw [parseMessage_update]; exact parseUpdate_eor_mp od _ f rx hrx hfa hfs)
-          rfl rfl rfl rfl (doEncode_eor_mp p _ f [] hf4)
+          rfl rfl rfl rfl (doEncode_of_body (doEncode_eor_mp p _ f [] hf4) (by rw [hmaxE, frame_length, hbl]; omega))
         refine ⟨?_, _, _, _, hrun⟩
         rw [hrun]
         apply check_single i 2 _ (.eor f) hb henc (by rw [hm]; rfl) (by rw [hbl]; omega) (by rw [hbl]; omega)
